@@ -17,6 +17,9 @@ for d in sorted(os.listdir(root)):
     det = {}
     for c, rc in re.findall(r"check (C\d+) quick: rc=(\d)", r):
         sigs = re.findall(r"signature: (.*)", r)
+        lp = os.path.join(root, d, f"check_{c}.log")
+        if not sigs and os.path.exists(lp):
+            sigs = re.findall(r"signature: (.*)", open(lp).read())
         det[c] = {"rc": int(rc), "signatures": sorted(set(sigs))[:8]}
     m["detected_by"] = det
     m["what_was_run"] = "tools/eval_seed.sh: demo without change, cargo test --workspace with change, demo with change (scratch worktree); then git -C /repo apply patch.diff, ./check <id> quick, git -C /repo checkout"
